@@ -561,6 +561,10 @@ type BulkReq struct {
 	Key int `json:"key,omitempty"`
 	// Built sends the calculated envelope of the example instead of its source
 	Built bool `json:"built,omitempty"`
+	// Template (build, sign): the source is sent as the request's template and
+	// the data only sets the alias of one party ("supplier" or "customer") to a
+	// text of its own: requests of one stream share the template text
+	Template string `json:"template,omitempty"`
 }
 
 var builtEnv = map[string][]byte{}
@@ -621,6 +625,11 @@ func (r BulkReq) payload() json.RawMessage {
 		data := srcByName(r.Doc).json
 		if r.Built {
 			data = builtOf(r.Doc)
+		}
+		if r.Action == "build" && r.Template != "" {
+			own, _ := json.Marshal(map[string]any{r.Template: map[string]any{"alias": "alias of " + r.ReqID}})
+			out, _ := json.Marshal(map[string]any{"template": data, "data": own})
+			return out
 		}
 		out, _ := json.Marshal(map[string]any{"data": data})
 		return out
@@ -803,7 +812,7 @@ func judgeBulk(c BulkCase, o *vh.Obs) {
 		} else {
 			got = stable(compact(res.Payload))
 		}
-		if req.Action == "build" && !res.failed() && req.Raw == "" && !req.Built {
+		if req.Action == "build" && !res.failed() && req.Raw == "" && !req.Built && req.Template == "" {
 			// what the library builds from the same source, without any entry point in between
 			if lib, ok := libBuild(srcByName(req.Doc)); ok && lib != got {
 				o.Failf("bulk:payload-differs-from-library:build", "request %d (build of %s): the payload differs from what the library builds from the same source: %.200s vs %.200s", res.SeqID, req.Doc, got, lib)
@@ -881,6 +890,11 @@ func genBulk(t *rapid.T) BulkCase {
 		case "build", "validate", "correct", "replicate":
 			r.Doc = sources[rapid.IntRange(0, len(sources)-1).Draw(t, "doc")].name
 			r.Built = r.Action != "build" && rapid.IntRange(0, 3).Draw(t, "built") > 0
+			if r.Action == "build" && rapid.IntRange(0, 2).Draw(t, "template") == 0 {
+				r.Template = rapid.SampledFrom([]string{"supplier", "customer"}).Draw(t, "tparty")
+				// the same few templates come back within a stream
+				r.Doc = sources[rapid.IntRange(0, 2).Draw(t, "tdoc")%len(sources)].name
+			}
 		case "sign", "verify":
 			r.Doc = sources[rapid.IntRange(0, len(sources)-1).Draw(t, "doc")].name
 			r.Key = rapid.IntRange(0, 2).Draw(t, "key")
@@ -899,7 +913,7 @@ func genBulk(t *rapid.T) BulkCase {
 func init() {
 	vh.OnExit(goblexec.Stop)
 	vh.Describe(
-		"Workload plans: 8-60 tasks (operation in {parse, calculate, validate, sign+verify, correct, correct of the signed and stamped envelope with option values shared by all goroutines, replicate, options-schema} on a document) over a small pool of documents drawn from every example, legacy variants of the examples (shapes migrated on load), one all-members document per published object type, plus cross pairs (one invoice per regime listing each registered addon), run by 2-16 goroutines behind a start barrier with GOMAXPROCS in {1,2,4,16} and optional yields; plus a sweep running every document x {calculate, validate, correct, options-schema}; plus, for every ordered pair of registered addons (on an example invoice of either addon's home regime and of ES), the sequence probes - pair - probes, where the probes are the base invoice and the invoice with either addon alone (calculate / validate / correct) and the pair is the invoice listing both addons (five operations): the probes must give the same results before and after (state outside the registries: package-level tables, caches). Cold start: a fresh child process of the same -race binary handles every source document for the first time from 8 goroutines at once (calculate / correct / validate / options-schema twice each), with no sequential pass before it - this is when lazily built and migration tables are written; the goroutines must agree and the detector must stay silent (on a failure the document list is halved until it no longer fails). Oracles: (1) the race detector (binary built with -race; reports are read from the detector's log), (2) every task's result equals the sequential baseline (identifiers, digests, dates and signatures masked), (3) a deep fingerprint of every registered regime / addon / catalogue / extension / currency definition - including the spare capacity of slices - is identical before and after. Bulk streams: 1-14 mixed requests (ping, sleep with skewed latencies, build from the source, validate / correct / replicate of the source or of the calculated envelope, sign with the default or an explicit private key, verify of a pre-signed envelope with the right, another or no public key, schema, regime, schemas, unknown action, malformed payloads, duplicate and empty req_ids, streams ending in garbage) through cli.Bulk in process and POST /bulk of a -race build of gobl serve: one response per request with its req_id and 1-based seq_id, payload equal to the standalone operation, exactly one final marker, last, with seq_id n+1. Non-trivial: >= 2 goroutines, or >= 2 requests in flight. type_terms: every way of naming every published type (complete identifier, short path, last segment, Go type name with and without package, lower case) is resolved 64 times by cli.FindType and must name the same type each time (a complete identifier itself); a bulk stream of six build requests naming their type that way must be answered exactly like the request on its own. Non-trivial: the term fits several published types. large_inputs: a source of about 400 lines (over 64 KB, more than the entry points read at once) in bulk streams next to small ones and through cli.Build from four goroutines; bulk build payloads are also compared with what the library builds from the same source.",
+		"Workload plans: 8-60 tasks (operation in {parse, calculate, validate, sign+verify, correct, correct of the signed and stamped envelope with option values shared by all goroutines, replicate, options-schema} on a document) over a small pool of documents drawn from every example, legacy variants of the examples (shapes migrated on load), one all-members document per published object type, plus cross pairs (one invoice per regime listing each registered addon), run by 2-16 goroutines behind a start barrier with GOMAXPROCS in {1,2,4,16} and optional yields; plus a sweep running every document x {calculate, validate, correct, options-schema}; plus, for every ordered pair of registered addons (on an example invoice of either addon's home regime and of ES), the sequence probes - pair - probes, where the probes are the base invoice and the invoice with either addon alone (calculate / validate / correct) and the pair is the invoice listing both addons (five operations): the probes must give the same results before and after (state outside the registries: package-level tables, caches). Cold start: a fresh child process of the same -race binary handles every source document for the first time from 8 goroutines at once (calculate / correct / validate / options-schema twice each), with no sequential pass before it - this is when lazily built and migration tables are written; the goroutines must agree and the detector must stay silent (on a failure the document list is halved until it no longer fails). Oracles: (1) the race detector (binary built with -race; reports are read from the detector's log), (2) every task's result equals the sequential baseline (identifiers, digests, dates and signatures masked), (3) a deep fingerprint of every registered regime / addon / catalogue / extension / currency definition - including the spare capacity of slices - is identical before and after. Bulk streams: 1-14 mixed requests (ping, sleep with skewed latencies, build from the source (a third of them with the source as the request's template and data that only sets one party's alias - requests of a stream share template texts), validate / correct / replicate of the source or of the calculated envelope, sign with the default or an explicit private key, verify of a pre-signed envelope with the right, another or no public key, schema, regime, schemas, unknown action, malformed payloads, duplicate and empty req_ids, streams ending in garbage) through cli.Bulk in process and POST /bulk of a -race build of gobl serve: one response per request with its req_id and 1-based seq_id, payload equal to the standalone operation, exactly one final marker, last, with seq_id n+1. Non-trivial: >= 2 goroutines, or >= 2 requests in flight. type_terms: every way of naming every published type (complete identifier, short path, last segment, Go type name with and without package, lower case) is resolved 64 times by cli.FindType and must name the same type each time (a complete identifier itself); a bulk stream of six build requests naming their type that way must be answered exactly like the request on its own. Non-trivial: the term fits several published types. large_inputs: a source of about 400 lines (over 64 KB, more than the entry points read at once) in bulk streams next to small ones and through cli.Build from four goroutines; bulk build payloads are also compared with what the library builds from the same source. shared_context: one invoice per regime validated from as many goroutines under one caller's context that already carries 1-5 validators (RegimeDef.WithContext / AddonDef.WithContext): outcomes equal the sequential ones, no race.",
 		"schedule exploration is randomised stress: the race detector can miss a race; the definition fingerprint cannot miss a write the workload triggers",
 		"identifiers, digests, dates and signatures are masked when comparing results",
 	)
@@ -913,6 +927,7 @@ func init() {
 	vh.Enum("order_dependence", enumOrder, judgeOrder)
 	vh.Enum("type_terms", enumTerms, judgeTerm)
 	vh.Enum("large_inputs", enumLarge, judgeLarge)
+	vh.Enum("shared_context", enumContexts, judgeContext)
 	vh.Rapid("plans", 60, 2_400, genPlan, judgePlan)
 	vh.Rapid("bulk", 120, 6_000, genBulk, judgeBulk)
 }
